@@ -1,9 +1,203 @@
 import Driver.Proto
+import ScrapliModel.Timeout
+import ScrapliModel.Generated.Patterns
+import ScrapliModel.Generated.C05Patterns
+import ScrapliModel.Generated.Consts
 namespace Driver.C05
-open Scrapli
+open Scrapli Scrapli.Chan Scrapli.Timeout
 
-/-- line-protocol handler for property C05 (arguments after the leading `c05` token) -/
+namespace C05
+
+def hexListList (s : String) : Option (List (List Bytes)) := (s.splitOn "/").mapM hexList
+
+def showErr : ErrClass → String
+  | .timeout => "timeout" | .connection => "connection" | .auth => "auth" | .privilege => "privilege"
+  | .netconf => "netconf" | .operation => "operation" | .other => "other"
+
+def showExcept : Except ErrClass Bytes → String
+  | .ok r => "ok:" ++ toHex r
+  | .error e => showErr e
+
+def rxCfg (re : Rx.Re) (depth : Nat) (exact strip : Bool) (ret : Bytes) : Cfg :=
+  { depth := depth, mult := Gen.Channel.inputSearchDepthMultiplier, exact := exact, strip := strip,
+    ret := ret,
+    promptP := fun w => Rx.isMatch re w,
+    stripP := fun b => Rx.replaceAll re b [] }
+
+def findWith (re : Rx.Re) (b : Bytes) : Bytes := (Rx.findBytes re b).getD []
+
+def exactAtB (P : Bytes → Bool) (S : Bytes) : Bool :=
+  P S && (List.range S.length).all fun k => !P (S.take k)
+
+/-- first prefix length at which `P` holds -/
+def firstHold (P : Bytes → Bool) (S : Bytes) : Option Nat :=
+  (List.range (S.length + 1)).find? fun j => P (S.take j)
+
+/-- The property's demand for a case, computed from the un-stalled device's per-phase streams and
+    the stall offset `k`, by the very case split of `Stalls` (C05.sendInput_stalls /
+    single_phase_stalls): walk the phases; a phase whose stream is cut by the stall before the
+    point `c` where its predicate first holds must time out; a phase that receives its whole stream
+    completes when `c` is the end of the stream (otherwise the case is outside the quantifier:
+    `none`) — except that the LAST phase may complete before the end of its stream if the
+    predicate stays true from there on (NETCONF 1.1: `\n##` completes, the final `\n` follows);
+    what it returns then depends on where the reads were cut (`loose`). Returns the outcome, the
+    streams left, the stall budget left, and `loose`. -/
+def specWalk {α : Type} : Prog α → List Bytes → Nat → Option (Out α × List Bytes × Nat × Bool)
+  | .ret r, ss, k => some (.ok r, ss, k, false)
+  | .fail e, ss, k => some (.err e, ss, k, false)
+  | .io _ P _ kont, ss, k =>
+    match ss with
+    | [] => none
+    | S :: rest =>
+      match firstHold P S with
+      | none => none
+      | some c =>
+        if c == 0 then none
+        else if k < c then some (.timeout, rest, 0, false)
+        else if c == S.length then specWalk (kont S) rest (k - S.length)
+        else
+          let stable := (List.range (S.length - c + 1)).all fun i => P (S.take (c + i))
+          match kont (S.take c), rest with
+          | .ret r, [] => if stable then some (.ok r, [], k - c, true) else none
+          | _, _ => none
+
+def lower (b : UInt8) : UInt8 := if 65 ≤ b && b ≤ 90 then b + 32 else b
+
+def containsFold (lit : Bytes) (b : Bytes) : Bool := isInfix (lit.map lower) (b.map lower)
+
+def mkSt (deliv : List (List Bytes)) : St := { rs := deliv.map fun cs => cs.map some }
+
+structure Ans where
+  dom : Bool
+  spec : String
+  model : String
+  t : Nat
+  dl : Nat
+
+def showAns (a : Ans) : String := s!"{b2s a.dom} {a.spec} {a.model} {a.t} {a.dl}"
+
+/-- one operation of a single kind: spec from the full streams, model from the delivered chunks -/
+def answer (kind : OpKind) (d : Nat) (prog : Prog Bytes) (fulls : List Bytes) (deliv : List (List Bytes))
+    (k : Nat) : Ans :=
+  let r := run d prog (mkSt deliv)
+  let model := showExcept (toPublic kind r.1)
+  match specWalk prog fulls k with
+  | none => ⟨false, "-", model, r.2.now, r.2.deadline⟩
+  | some (o, _, _, loose) =>
+    let sp := showExcept (toPublic kind o)
+    ⟨true, if loose then "ok:*" else sp, model, r.2.now, r.2.deadline⟩
+
+def parseEvents : Nat → List String → Option (List Event × List String)
+  | 0, rest => some ([], rest)
+  | n + 1, inp :: resp :: hid :: rest => do
+    let i ← fromHex inp
+    let r ← if resp == "-" then pure none else (fromHex resp).map some
+    let (es, rest') ← parseEvents n rest
+    pure ({ input := i, resp := r.map fun lit => fun w => isInfix lit w, hidden := s2b hid } :: es, rest')
+  | _, _ => none
+
+def parseCallbacks : Nat → List String → Option (List Callback)
+  | 0, _ => some []
+  | n + 1, trig :: comp :: send :: rest => do
+    let t ← fromHex trig
+    let s ← fromHex send
+    let cbs ← parseCallbacks n rest
+    pure ({ trig := containsFold t, complete := s2b comp, reset := true,
+            send := if s.isEmpty then [] else [s], next := none } :: cbs)
+  | _, _ => none
+
+end C05
+open C05
+
+/-- `c05 gt <ops> <t>` → `GetTimeout` (integers, nanoseconds);
+    `c05 op <kind> <T> <d> <k> <full streams> <delivered chunks per phase> <kind parameters…>`
+    → `<dom> <spec> <model> <model return time> <deadline in force>`.
+    kinds: `si depth exact strip ret cmd` · `gp depth ret` · `ia depth ret n (input resp|- hidden)*`
+    · `au depth ret user pass` · `he depth` · `rp version` · `cb ret input n (trigger complete send)*`
+    · `nw depth ret strip escalate cmd fuel Tcmd` -/
 def handleC05 : List String → String
+  | ["gt", ops, t] =>
+    match ops.toInt?, t.toInt? with
+    | some o, some t => toString (getTimeout o ((Gen.Util.MaxTimeout : Nat) * 1000000000) t)
+    | _, _ => "bad-op"
+  | "op" :: kind :: T :: d :: k :: fulls :: deliv :: ps =>
+    match T.toNat?, d.toNat?, k.toNat?, hexList fulls, hexListList deliv with
+    | some T, some d, some k, some fulls, some deliv =>
+      match kind, ps with
+      | "si", [depth, exact, strip, ret, cmd] =>
+        match depth.toNat?, fromHex ret, fromHex cmd with
+        | some dp, some ret, some cmd =>
+          let cfg := rxCfg Gen.Rx.Channel.promptPattern dp (s2b exact) (s2b strip) ret
+          showAns (answer .sendInput d (sendInputP cfg cmd T) fulls deliv k)
+        | _, _, _ => "bad-op"
+      | "gp", [depth, ret] =>
+        match depth.toNat?, fromHex ret with
+        | some dp, some ret =>
+          let cfg := rxCfg Gen.Rx.Channel.promptPattern dp false false ret
+          showAns (answer .getPrompt d (getPromptP cfg (findWith Gen.Rx.Channel.promptPattern) T) fulls deliv k)
+        | _, _ => "bad-op"
+      | "ia", depth :: ret :: n :: rest =>
+        match depth.toNat?, fromHex ret, n.toNat? with
+        | some dp, some ret, some n =>
+          match parseEvents n rest with
+          | some (es, _) =>
+            let cfg := rxCfg Gen.Rx.Channel.promptPattern dp false false ret
+            showAns (answer .sendInteractive d (interactiveP cfg [] es (some T) []) fulls deliv k)
+          | none => "bad-op"
+        | _, _, _ => "bad-op"
+      | "au", [depth, ret, user, pass] =>
+        match depth.toNat?, fromHex ret, fromHex user, fromHex pass with
+        | some dp, some ret, some u, some p =>
+          let cfg := rxCfg Gen.Rx.Channel.promptPattern dp false false ret
+          let prog := authTelnetP cfg (fun b => Rx.isMatch Gen.Rx.Channel.username b)
+            (fun b => Rx.isMatch Gen.Rx.Channel.password b) u p
+            Gen.Channel.usernameSeenMax Gen.Channel.passwordSeenMax 16 [] 0 0 [] (some T)
+          let a := answer .auth d prog fulls deliv k
+          -- the login's result is not observable through Open: only the class is compared
+          let strip (s : String) : String := if s.startsWith "ok:" then "ok:-" else s
+          showAns { a with spec := strip a.spec, model := strip a.model }
+        | _, _, _, _ => "bad-op"
+      | "he", [depth] =>
+        match depth.toNat? with
+        | some dp =>
+          let cfg := rxCfg Gen.Rx.Netconf.v1Dot0Delim dp false false [10]
+          showAns (answer .hello d (helloP cfg T) fulls deliv k)
+        | none => "bad-op"
+      | "rp", [ver] =>
+        let re := if ver == "11" then Gen.Rx.Netconf.v1Dot1Delim else Gen.Rx.Netconf.v1Dot0Delim
+        showAns (answer .rpc d (rpcP [] (fun rb => Rx.isMatch re rb) T) fulls deliv k)
+      | "cb", ret :: input :: n :: rest =>
+        match fromHex ret, fromHex input, n.toNat? with
+        | some ret, some input, some n =>
+          match parseCallbacks n rest with
+          | some cbs => showAns (answer .callbacks d (callbacksP cbs 8 [input, ret] [] [] T) fulls deliv k)
+          | none => "bad-op"
+        | _, _, _ => "bad-op"
+      | "nw", [depth, ret, strip, esc, cmd, fuel, tcmd] =>
+        match depth.toNat?, fromHex ret, fromHex esc, fromHex cmd, fuel.toNat?, tcmd.toNat? with
+        | some dp, some ret, some esc, some cmd, some fuel, some tcmd =>
+          let cfgA := rxCfg Gen.Rx.C05.joinedExecPriv dp false true ret
+          let cfgC := rxCfg Gen.Rx.C05.joinedExecPriv dp false (s2b strip) ret
+          let acq := acquireP cfgA (findWith Gen.Rx.C05.joinedExecPriv)
+            (fun p => Rx.isMatch Gen.Rx.C05.privLevel p) esc T fuel
+          let cmdP := sendInputP cfgC cmd tcmd
+          let r := networkSendCommand d acq cmdP (mkSt deliv)
+          let model := showExcept r.1
+          let spec : Option String :=
+            match specWalk acq fulls k with
+            | none => none
+            | some (.ok _, ss, k', _) =>
+              match specWalk cmdP ss k' with
+              | none => none
+              | some (o, _, _, _) => some (showExcept (wrapAcquire (.ok ()) (toPublic .sendInput o)))
+            | some (o, _, _, _) =>
+              some (showExcept (wrapAcquire (toPublic .getPrompt o) (.error .other)))
+          match spec with
+          | none => showAns ⟨false, "-", model, r.2.now, r.2.deadline⟩
+          | some s => showAns ⟨true, s, model, r.2.now, r.2.deadline⟩
+        | _, _, _, _, _, _ => "bad-op"
+      | _, _ => "bad-op"
+    | _, _, _, _, _ => "bad-op"
   | _ => "bad-op"
 
 end Driver.C05
